@@ -24,7 +24,9 @@ def cases(tier):
             for pi in range(len(gens(m))):
                 cs.append(dict(name=f"{name}_m{m}_p{pi}", fn="gram", args=dict(agg=name, m=m, pi=pi), weight=m * (3 if name in ("mgda", "imtlg") else 1)))
     for name in ("upgrad", "dualproj", "upgrad_pref", "dualproj_pref", "alignedmtl", "alignedmtl_pref", "cagrad"):
-        cs.append(dict(name=f"{name}_m2_p1", fn="gram", args=dict(agg=name, m=2, pi=0), weight=6))
+        if name == "cagrad" and tier != "thorough":
+            continue  # ~60 s alone, several minutes under load: thorough tier only
+        cs.append(dict(name=f"{name}_m2_p1", fn="gram", args=dict(agg=name, m=2, pi=0), weight=30 if name == "cagrad" else 6, **({'budget_s': 900} if name == 'cagrad' else {})))
     for m in (2, 3, 4):
         for n in (1, 2):
             if m == 4 and n == 2 and tier != "thorough":
